@@ -396,8 +396,8 @@ def _run(ctx):
     T = Translator(P)
     O, R, S = T.var("O"), T.var("R"), T.var("S")
     p_, s_ = T.var("p"), T.var("s")
-    env = {proj(("param", g.path, offer_ai), ("f", "amount")): O, proj(("param", g.path, ret_ai), ("f", "amount")): R, ("param", g.path, sp_i): S,
-           proj(proj(("param", g.path, belief_i), ("v", "Some")), ("f", 0)): p_, proj(proj(("param", g.path, spread_i), ("v", "Some")), ("f", 0)): s_}
+    env = {proj(common.param_value(g, offer_ai), ("f", "amount")): O, proj(common.param_value(g, ret_ai), ("f", "amount")): R, common.param_value(g, sp_i): S,
+           proj(proj(common.param_value(g, belief_i), ("v", "Some")), ("f", 0)): p_, proj(proj(common.param_value(g, spread_i), ("v", "Some")), ("f", 0)): s_}
     E_ref = T.floors.floor(O * RF(D18) / p_, "ref E")
     ratio_b_ref = T.floors.floor((E_ref - R) * RF(D18) / E_ref, "ref belief ratio")
     ratio_s_ref = T.floors.floor(S * RF(D18) / (R + S), "ref spread ratio")
